@@ -457,4 +457,38 @@ Proof.
     split; [constructor; [reflexivity|exact I1]|].
     exists l'. repeat split; auto. cbn [deliveries]. rewrite M1, M'. now rewrite app_assoc.
 Qed.
+
+(* once the whole text has arrived nothing is held back: every message has been delivered *)
+Lemma flatten_msg_length M m l : spelling M m -> 2 <= length (flatten (SMsg M m :: l)).
+Proof.
+  intros Sp. unfold flatten. cbn [map concat seg_text]. rewrite app_length. destruct (sp_ends _ _ Sp) as [H _]. lia.
+Qed.
+
+Lemma nothing_overdue_whole l : wf l -> nothing_overdue l (flatten l) -> msgs l = [].
+Proof.
+  induction l as [|[J|M m] l IH]; intros W O; [reflexivity| |].
+  - cbn [wf] in W. destruct W as (_ & Hnext & W). cbn [msgs]. cbn [nothing_overdue] in O.
+    unfold flatten in O. cbn [map concat seg_text] in O. fold (flatten l) in O.
+    destruct O as [O|O].
+    + rewrite app_length in O. destruct l as [|[J2|M2 m2] l2]; [reflexivity|contradiction|].
+      cbn [wf] in W. destruct W as [Sp2 _]. pose proof (flatten_msg_length M2 m2 l2 Sp2). lia.
+    + rewrite skipn_app, skipn_all, Nat.sub_diag in O. cbn [skipn app] in O. exact (IH W O).
+  - exfalso. cbn [nothing_overdue] in O. unfold flatten in O. cbn [map concat seg_text] in O. rewrite app_length in O. lia.
+Qed.
+
+Theorem framing_complete : forall pieces l,
+  wf l -> concat pieces = flatten l ->
+  let '(outs, dfin) := feed msg parse tags thr [] pieces in
+  Forall (fun om => fst om = Done) outs /\ deliveries outs = msgs l.
+Proof.
+  intros pieces l W E.
+  assert (E0 : [] ++ concat pieces ++ [] = flatten l) by (now rewrite app_nil_r).
+  assert (O0 : nothing_overdue l []).
+  { destruct l as [|[J|M m] l0]; cbn [nothing_overdue]; [exact I|left; cbn; lia|].
+    cbn [wf] in W. destruct W as [Sp _]. destruct (sp_ends _ _ Sp) as [H _]. cbn [length]. lia. }
+  pose proof (framing pieces l [] [] W E0 O0) as F.
+  destruct (feed msg parse tags thr [] pieces) as [outs dfin].
+  destruct F as [D (l' & W' & F' & M' & O')]. split; [exact D|].
+  rewrite app_nil_r in F'. rewrite F' in O'. rewrite (nothing_overdue_whole l' W' O'), app_nil_r in M'. now symmetry.
+Qed.
 End Framing.
